@@ -18,6 +18,11 @@ fn apply(f: &str, c: Coord<f64>) -> Coord<f64> {
 /// X02 (extension): HasDimensions against the specification's Dim / BDim / IsEmptyG
 fn dims_case(cx: &mut Ctx, case: &Value) {
     use geo::dimensions::{Dimensions, HasDimensions};
+    // (a polygon without shell but with holes has coordinates and no point set: "empty" is not defined for it; not judged here)
+    if case["g"].to_string().contains("\"ext\":[],\"holes\":[[") {
+        cx.count("dims_shellless_polygon_skipped", 1);
+        return;
+    }
     let g = gj::parse(&case["g"]);
     let gg = g.geometry();
     let num = |d: Dimensions| match d { Dimensions::Empty => -1, Dimensions::ZeroDimensional => 0, Dimensions::OneDimensional => 1, Dimensions::TwoDimensional => 2 };
